@@ -5,7 +5,8 @@ PROP = dict(
     lean_module="AbraProofs.Properties.C30",
     required_theorems=["C30_int_literal_roundtrip", "C30_int_literal_value", "C30_int_literal_out_of_range",
                        "C30_float_literal_token", "C30_escape_roundtrip", "C30_scan_finds_close",
-                       "C30_quoted_roundtrip", "C30_strip_spec_partial", "C30_strip_spec", "C30_int_pattern_literal"],
+                       "C30_quoted_roundtrip", "C30_strip_spec_partial", "C30_strip_spec", "C30_int_pattern_literal",
+                       "C30_minIndent_is_min", "C30_dropCols_spec", "C30_assemble_each_line"],
     harness_bin="c30",
     # the lexer's answer on malformed literal text (bad escapes, unterminated literals) is more than the
     # property fixes; a violation of the property is found by the harness's own oracle (lexer payload and
@@ -19,7 +20,7 @@ PROP = dict(
          "U+2028} spelled in single, double and triple quotes (block / opener-residue / inline-closer / single-line layouts, "
          "space and tab indentation, blank lines); raw literal texts with bad escapes and unterminated literals for the lexer's "
          "error branches; literals in PATTERN position (`match v { <literal> -> hit  _ -> miss }`: ints with `_` incl. the boundary and "
-         "out-of-range ones, floats, strings in the other quote style, hits and near misses); programs behind a `#!` first line. Per literal: lexer payload+spans (verif_lex) vs the Lean lexer model, the generator's escape printer "
+         "out-of-range ones, floats, strings in the other quote style, hits and near misses); programs behind a `#!` first line; triple-quoted literals whose lines are indented independently by every mix of spaces and tabs (all 15x15 pairs of indentations of length <= 3, every least-indented shape of length <= 4 against lines indented at least as far, random lines with up to 6 blanks, whitespace-only lines, arbitrary closing-line blanks), expected value computed by a Rust statement of the rule (flat measure 1/4, minimum over non-blank lines, strip by columns). Per literal: lexer payload+spans (verif_lex) vs the Lean lexer model, the generator's escape printer "
          "vs the Lean `escape`, parser range check vs `intLiteral`, and the value printed by a running program vs the intended "
          "value. distinct = distinct literal texts; non-trivial = contains `_`, a backslash, a newline or is out of range",
     nontrivial=lambda req, imp: any(x in req.split()[1] for x in ("5f", "5c", "0a")) if req.startswith("lex ") else
